@@ -37,11 +37,12 @@
 #include <set>
 #include <array>
 #include <tuple>
+#include <functional>
 
 using namespace stir;
 
 static FILE *ops, *out, *orc;
-static long oracle_checks = 0, oracle_fails = 0, known_hits = 0;
+static long oracle_checks = 0, oracle_fails = 0, known_hits = 0, n_ops = 0, n_out = 0;
 
 static void
 oracle_fail(const std::string& text)
@@ -83,8 +84,8 @@ print_cfg(const ProjDataInfoCylindrical& p)
     << p.get_tof_mash_factor() << " " << p.get_min_tof_pos_num() << " " << p.get_max_tof_pos_num() << " " << p.get_min_segment_num();
   for (int sg = p.get_min_segment_num(); sg <= p.get_max_segment_num(); ++sg)
     s << " " << p.get_min_ring_difference(sg) << "," << p.get_max_ring_difference(sg) << "," << p.get_num_axial_poss(sg);
-  std::fprintf(ops, "%s\n", s.str().c_str());
-  std::fprintf(out, "ok\n");
+  ++n_ops, std::fprintf(ops, "%s\n", s.str().c_str());
+  ++n_out, std::fprintf(out, "ok\n");
 }
 
 static bool
@@ -158,13 +159,13 @@ run_ssrb_data(const shared_ptr<const ProjDataInfoCylindricalNoArcCorr>& in,
       dp.timing_pos() = t;
       Bin b;
       const bool ok = in->get_bin_for_det_pos_pair(b, dp) == Succeeded::yes && bin_in_range(*in, b);
-      std::fprintf(ops, "ev %d %d %d %d %d %d\n", d1, r1, d2, r2, t, w);
+      ++n_ops, std::fprintf(ops, "ev %d %d %d %d %d %d\n", d1, r1, d2, r2, t, w);
       if (!ok)
         {
-          std::fprintf(out, "none\n");
+          ++n_out, std::fprintf(out, "none\n");
           continue;
         }
-      std::fprintf(out, "%d %d %d %d %d\n", b.segment_num(), b.view_num(), b.axial_pos_num(), b.tangential_pos_num(), b.timing_pos_num());
+      ++n_out, std::fprintf(out, "%d %d %d %d %d\n", b.segment_num(), b.view_num(), b.axial_pos_num(), b.tangential_pos_num(), b.timing_pos_num());
       std::array<int, 3> key = { b.segment_num(), b.axial_pos_num(), b.timing_pos_num() };
       auto it = sinos.find(key);
       if (it == sinos.end())
@@ -179,7 +180,7 @@ run_ssrb_data(const shared_ptr<const ProjDataInfoCylindricalNoArcCorr>& in,
   for (int norm = 0; norm <= (also_norm ? 1 : 0); ++norm)
     {
       ProjDataInMemory& d = norm ? dout_norm : dout;
-      std::fprintf(ops, "ssrbdata %d\n", norm);
+      ++n_ops, std::fprintf(ops, "ssrbdata %d\n", norm);
       bool threw = false;
       try
         {
@@ -191,7 +192,7 @@ run_ssrb_data(const shared_ptr<const ProjDataInfoCylindricalNoArcCorr>& in,
         }
       if (threw)
         {
-          std::fprintf(out, "err\n");
+          ++n_out, std::fprintf(out, "err\n");
           if (!norm)
             return;
           continue;
@@ -220,7 +221,7 @@ run_ssrb_data(const shared_ptr<const ProjDataInfoCylindricalNoArcCorr>& in,
             s << static_cast<long>(e.second);
           s << " ;";
         }
-      std::fprintf(out, "%s\n", s.str().c_str());
+      ++n_out, std::fprintf(out, "%s\n", s.str().c_str());
 
       if (norm)
         continue;
@@ -328,7 +329,7 @@ run_ssrb_data(const shared_ptr<const ProjDataInfoCylindricalNoArcCorr>& in,
 static shared_ptr<ProjDataInfoCylindricalNoArcCorr>
 run_ssrb_info(const shared_ptr<const ProjDataInfoCylindricalNoArcCorr>& in, const SsrbParams& p)
 {
-  std::fprintf(ops, "ssrbinfo %d %d %d %d %d\n", p.kSeg, p.kView, p.trim, p.maxSeg, p.kTof);
+  ++n_ops, std::fprintf(ops, "ssrbinfo %d %d %d %d %d\n", p.kSeg, p.kView, p.trim, p.maxSeg, p.kTof);
   shared_ptr<ProjDataInfoCylindricalNoArcCorr> outinfo;
   try
     {
@@ -343,13 +344,13 @@ run_ssrb_info(const shared_ptr<const ProjDataInfoCylindricalNoArcCorr>& in, cons
     }
   if (!outinfo)
     {
-      std::fprintf(out, "err\n");
+      ++n_out, std::fprintf(out, "err\n");
       return outinfo;
     }
-  std::fprintf(out, "%s\n", geom_str(*outinfo).c_str());
-  std::fprintf(ops, "ssrbphi %s %s %d %d\n", vh::hex(in->get_azimuthal_angle_offset()).c_str(), vh::hex(in->get_azimuthal_angle_sampling()).c_str(),
+  ++n_out, std::fprintf(out, "%s\n", geom_str(*outinfo).c_str());
+  ++n_ops, std::fprintf(ops, "ssrbphi %s %s %d %d\n", vh::hex(in->get_azimuthal_angle_offset()).c_str(), vh::hex(in->get_azimuthal_angle_sampling()).c_str(),
                in->get_num_views(), p.kView);
-  std::fprintf(out, "%s %s\n", F(outinfo->get_azimuthal_angle_offset()).c_str(), F(outinfo->get_azimuthal_angle_sampling()).c_str());
+  ++n_out, std::fprintf(out, "%s %s\n", F(outinfo->get_azimuthal_angle_offset()).c_str(), F(outinfo->get_azimuthal_angle_sampling()).c_str());
   return outinfo;
 }
 
@@ -410,13 +411,13 @@ run_overlap_1d(vh::Rng& rng)
   o << " |";
   for (int i = in.get_min_index(); i <= in.get_max_index(); ++i)
     o << " " << vh::hex(in[i]);
-  std::fprintf(ops, "%s\n", o.str().c_str());
+  ++n_ops, std::fprintf(ops, "%s\n", o.str().c_str());
   Array<1, float> res(outv);
   overlap_interpolate(res, in, zoom, offset, assign);
   std::ostringstream a;
   for (int i = res.get_min_index(); i <= res.get_max_index(); ++i)
     a << (i == res.get_min_index() ? "" : " ") << F(res[i]);
-  std::fprintf(out, "%s\n", a.str().c_str());
+  ++n_out, std::fprintf(out, "%s\n", a.str().c_str());
 
   // same request through the iterator version with explicit box boundaries
   Array<1, float> in_coords(in.get_min_index(), in.get_max_index() + 1), out_coords(outv.get_min_index(), outv.get_max_index() + 1);
@@ -439,14 +440,14 @@ run_overlap_1d(vh::Rng& rng)
     q << " |";
     for (int i = outv.get_min_index(); i <= outv.get_max_index(); ++i)
       q << " " << vh::hex(outv[i]);
-    std::fprintf(ops, "%s\n", q.str().c_str());
+    ++n_ops, std::fprintf(ops, "%s\n", q.str().c_str());
   }
   overlap_interpolate(res2.begin(), res2.end(), out_coords.begin(), out_coords.end(), in.begin(), in.end(), in_coords.begin(), in_coords.end(), false, assign);
   {
     std::ostringstream q;
     for (int i = res2.get_min_index(); i <= res2.get_max_index(); ++i)
       q << (i == res2.get_min_index() ? "" : " ") << F(res2[i]);
-    std::fprintf(out, "%s\n", q.str().c_str());
+    ++n_out, std::fprintf(out, "%s\n", q.str().c_str());
   }
   if (!assign)
     return;
@@ -501,7 +502,7 @@ run_overlap_1d(vh::Rng& rng)
   // the two implementations agree (the iterator version drops overlaps below 1e-4 of a box).
   // Not compared when all input lies left of the output: the iterator version then returns without zeroing the output
   // (overlap_interpolate.inl:55-61) although assign_rest_with_zeroes is set -- reported, not part of C15.
-  if (out_left < imin + ilen - .5)
+  if (out_coords[out_coords.get_min_index()] < in_coords[in_coords.get_max_index()])
   for (int i = res.get_min_index(); i <= res.get_max_index(); ++i)
     {
       ++oracle_checks;
@@ -548,13 +549,13 @@ run_overlap_iter(vh::Rng& rng)
   q << " |";
   for (float v : o0)
     q << " " << vh::hex(v);
-  std::fprintf(ops, "%s\n", q.str().c_str());
+  ++n_ops, std::fprintf(ops, "%s\n", q.str().c_str());
   std::vector<float> res(o0);
   overlap_interpolate(res.begin(), res.end(), oc.begin(), oc.end(), in.begin(), in.end(), ic.begin(), ic.end(), only_add, assign);
   std::ostringstream a;
   for (std::size_t i = 0; i < res.size(); ++i)
     a << (i ? " " : "") << F(res[i]);
-  std::fprintf(out, "%s\n", a.str().c_str());
+  ++n_out, std::fprintf(out, "%s\n", a.str().c_str());
   // ORACLE: conservation when the output boxes cover the input boxes
   if (!only_add && assign && oc.front() <= ic.front() && oc.back() >= ic.back())
     {
@@ -687,16 +688,23 @@ own_com(const VoxelsOnCartesianGrid<float>& im, double com[3], double& total)
   return true;
 }
 
+// same sizes, voxel sizes, physical position of the first voxel and values (index ranges may differ when the origin compensates)
 static bool
 images_agree(const VoxelsOnCartesianGrid<float>& a, const VoxelsOnCartesianGrid<float>& b, double rel)
 {
-  if (a.get_index_range() != b.get_index_range())
-    return false;
   const ImgGeom ga = geom_of(a), gb = geom_of(b);
+  if (ga.nz != gb.nz || ga.ny != gb.ny || ga.nx != gb.nx)
+    return false;
+  if (rel == 0 && (ga.zmin != gb.zmin || ga.ymin != gb.ymin || ga.xmin != gb.xmin))
+    return false;
   const double gt = 1e-5;
-  if (std::fabs(ga.vz - gb.vz) > gt * ga.vz || std::fabs(ga.vy - gb.vy) > gt * ga.vy || std::fabs(ga.vx - gb.vx) > gt * ga.vx
-      || std::fabs(ga.oz - gb.oz) > gt * (1 + std::fabs(ga.oz)) || std::fabs(ga.oy - gb.oy) > gt * (1 + std::fabs(ga.oy))
-      || std::fabs(ga.ox - gb.ox) > gt * (1 + std::fabs(ga.ox)))
+  if (std::fabs(ga.vz - gb.vz) > gt * ga.vz || std::fabs(ga.vy - gb.vy) > gt * ga.vy || std::fabs(ga.vx - gb.vx) > gt * ga.vx)
+    return false;
+  const double pz = static_cast<double>(ga.zmin) * ga.vz + ga.oz - (static_cast<double>(gb.zmin) * gb.vz + gb.oz);
+  const double py = static_cast<double>(ga.ymin) * ga.vy + ga.oy - (static_cast<double>(gb.ymin) * gb.vy + gb.oy);
+  const double px = static_cast<double>(ga.xmin) * ga.vx + ga.ox - (static_cast<double>(gb.xmin) * gb.vx + gb.ox);
+  if (std::fabs(pz) > gt * (ga.vz * (1 + ga.nz) + std::fabs(ga.oz)) || std::fabs(py) > gt * (ga.vy * (1 + ga.ny) + std::fabs(ga.oy))
+      || std::fabs(px) > gt * (ga.vx * (1 + ga.nx) + std::fabs(ga.ox)))
     return false;
   const double m = std::max(max_abs(a), max_abs(b));
   auto ia = a.begin_all();
@@ -710,19 +718,19 @@ images_agree(const VoxelsOnCartesianGrid<float>& a, const VoxelsOnCartesianGrid<
 static void
 run_cog(const VoxelsOnCartesianGrid<float>& im)
 {
-  std::fprintf(ops, "cog | %s |%s\n", geom_ops(geom_of(im)).c_str(), data_ops(im).c_str());
+  ++n_ops, std::fprintf(ops, "cog | %s |%s\n", geom_ops(geom_of(im)).c_str(), data_ops(im).c_str());
   double com[3], tot;
   const bool ok = own_com(im, com, tot);
   float fsum = im.sum();
   if (fsum == 0)
     {
-      std::fprintf(out, "none\n");
+      ++n_out, std::fprintf(out, "none\n");
       return;
     }
   try
     {
       const CartesianCoordinate3D<float> c = find_centre_of_gravity_in_mm(im);
-      std::fprintf(out, "%s %s %s\n", F(c.z()).c_str(), F(c.y()).c_str(), F(c.x()).c_str());
+      ++n_out, std::fprintf(out, "%s %s %s\n", F(c.z()).c_str(), F(c.y()).c_str(), F(c.x()).c_str());
       // ORACLE: the library's centre of gravity is the first moment in physical coordinates (for non-negative data)
       bool nonneg = true;
       for (auto it = im.begin_all(); it != im.end_all(); ++it)
@@ -741,7 +749,7 @@ run_cog(const VoxelsOnCartesianGrid<float>& im)
     }
   catch (...)
     {
-      std::fprintf(out, "none\n");
+      ++n_out, std::fprintf(out, "none\n");
     }
 }
 
@@ -821,15 +829,15 @@ run_zoom_case(vh::Rng& rng)
   std::ostringstream pa;
   pa << vh::hex(zz) << " " << vh::hex(zy) << " " << vh::hex(zx) << " " << vh::hex(offz) << " " << vh::hex(offy) << " " << vh::hex(offx) << " " << nz << " " << ny
      << " " << nx;
-  std::fprintf(ops, "zoom 3d %d | %s | %s |%s\n", opt, in_txt.c_str(), pa.str().c_str(), dat_txt.c_str());
+  ++n_ops, std::fprintf(ops, "zoom 3d %d | %s | %s |%s\n", opt, in_txt.c_str(), pa.str().c_str(), dat_txt.c_str());
   const VoxelsOnCartesianGrid<float> A
       = zoom_image(in, CartesianCoordinate3D<float>(zz, zy, zx), CartesianCoordinate3D<float>(offz, offy, offx), Coordinate3D<int>(nz, ny, nx), zo);
-  std::fprintf(out, "%s\n", img_answer(A).c_str());
+  ++n_out, std::fprintf(out, "%s\n", img_answer(A).c_str());
   // B: in place
   VoxelsOnCartesianGrid<float> B(in);
   zoom_image_in_place(B, CartesianCoordinate3D<float>(zz, zy, zx), CartesianCoordinate3D<float>(offz, offy, offx), Coordinate3D<int>(nz, ny, nx), zo);
-  std::fprintf(ops, "zoom 3d %d | %s | %s |%s\n", opt, in_txt.c_str(), pa.str().c_str(), dat_txt.c_str());
-  std::fprintf(out, "%s\n", img_answer(B).c_str());
+  ++n_ops, std::fprintf(ops, "zoom 3d %d | %s | %s |%s\n", opt, in_txt.c_str(), pa.str().c_str(), dat_txt.c_str());
+  ++n_out, std::fprintf(out, "%s\n", img_answer(B).c_str());
   ++oracle_checks;
   if (!images_agree(A, B, 0))
     oracle_fail("zoom_image_in_place (3-D parameters) differs from zoom_image: " + pa.str() + " in: " + in_txt);
@@ -837,9 +845,9 @@ run_zoom_case(vh::Rng& rng)
   VoxelsOnCartesianGrid<float> C = make_img(geom_of(A));
   for (auto it = C.begin_all(); it != C.end_all(); ++it)
     *it = rand_value(rng, true); // previous contents must not matter
-  std::fprintf(ops, "zoom out %d | %s | %s |%s\n", opt, in_txt.c_str(), geom_ops(geom_of(C)).c_str(), dat_txt.c_str());
+  ++n_ops, std::fprintf(ops, "zoom out %d | %s | %s |%s\n", opt, in_txt.c_str(), geom_ops(geom_of(C)).c_str(), dat_txt.c_str());
   zoom_image(C, in, zo);
-  std::fprintf(out, "%s\n", img_answer(C).c_str());
+  ++n_out, std::fprintf(out, "%s\n", img_answer(C).c_str());
   ++oracle_checks;
   if (!images_agree(A, C, 1e-5))
     oracle_fail("two-step zoom_image(out, in) differs from the one-call zoom_image: " + pa.str() + " in: " + in_txt);
@@ -848,16 +856,19 @@ run_zoom_case(vh::Rng& rng)
     {
       std::ostringstream pd;
       pd << vh::hex(zx) << " " << vh::hex(offx) << " " << vh::hex(offy) << " " << nx;
-      std::fprintf(ops, "zoom 2d %d | %s | %s |%s\n", opt, in_txt.c_str(), pd.str().c_str(), dat_txt.c_str());
+      ++n_ops, std::fprintf(ops, "zoom 2d %d | %s | %s |%s\n", opt, in_txt.c_str(), pd.str().c_str(), dat_txt.c_str());
       D = zoom_image(in, zx, offx, offy, nx, zo);
-      std::fprintf(out, "%s\n", img_answer(D).c_str());
+      ++n_out, std::fprintf(out, "%s\n", img_answer(D).c_str());
       VoxelsOnCartesianGrid<float> E(in);
       zoom_image_in_place(E, zx, offx, offy, nx, zo);
       ++oracle_checks;
       if (!images_agree(D, E, 0))
         oracle_fail("zoom_image_in_place (2-D parameters) differs from zoom_image: " + pd.str() + " in: " + in_txt);
+      // (the 2-D interface returns the image untouched when zoom==1, offsets==0 and new_size==x_size, without looking at y_size:
+      //  for a non-square image that is not the requested grid -- reported, not compared)
+      const bool shortcut_nonsquare = zx == 1.F && offx == 0.F && offy == 0.F && nx == g.nx && g.ny != g.nx;
       ++oracle_checks;
-      if (!images_agree(A, D, 1e-5))
+      if (!shortcut_nonsquare && !images_agree(A, D, 1e-5))
         oracle_fail("zoom_image with (zoom, offsets, size) differs from zoom_image with the equivalent 3-D parameters: " + pd.str() + " in: " + in_txt);
     }
   // F: an output grid chosen freely (not through the zoom parameters)
@@ -879,9 +890,9 @@ run_zoom_case(vh::Rng& rng)
       VoxelsOnCartesianGrid<float> Fimg = make_img(h);
       for (auto it = Fimg.begin_all(); it != Fimg.end_all(); ++it)
         *it = rand_value(rng, true);
-      std::fprintf(ops, "zoom out %d | %s | %s |%s\n", opt, in_txt.c_str(), geom_ops(h).c_str(), dat_txt.c_str());
+      ++n_ops, std::fprintf(ops, "zoom out %d | %s | %s |%s\n", opt, in_txt.c_str(), geom_ops(h).c_str(), dat_txt.c_str());
       zoom_image(Fimg, in, zo);
-      std::fprintf(out, "%s\n", img_answer(Fimg).c_str());
+      ++n_out, std::fprintf(out, "%s\n", img_answer(Fimg).c_str());
     }
   run_cog(in);
   run_cog(A);
@@ -966,6 +977,161 @@ run_zoom_case(vh::Rng& rng)
                     }
                 }
         }
+    }
+}
+
+// ---------------------------------------------------------------------------------------------- inverse_SSRB / extend_segment
+
+static void
+run_inverse_ssrb(vh::Rng& rng)
+{
+  const int N = 8, R = rng.range(2, 7);
+  const bool tof = rng.range(0, 3) == 0;
+  shared_ptr<Scanner> scanner = vh::make_scanner(N, R, tof ? 3 : -1);
+  const int span4 = (rng.coin() && 3 <= 2 * R - 1) ? 3 : 1;
+  const int md4 = rng.range((span4 - 1) / 2, R - 1);
+  shared_ptr<ProjDataInfo> p4 = vh::make_pdi(scanner, span4, md4, N / 2, 3, false, tof ? 1 : 0);
+  shared_ptr<ProjDataInfo> p3;
+  const int kind = rng.range(0, 2);
+  if (kind == 0)
+    p3 = vh::make_pdi(scanner, 1, 0, N / 2, 3, false, tof ? 1 : 0);
+  else if (kind == 1 && R >= 2)
+    p3 = vh::make_pdi(scanner, 3, 1, N / 2, 3, false, tof ? 1 : 0);
+  else
+    {
+      shared_ptr<ProjDataInfo> full = vh::make_pdi(scanner, 1, R - 1, N / 2, 3, false, tof ? 1 : 0);
+      p3.reset(SSRB(*full, 2 * R - 1, 1, 0, -1, 1)); // the classical single-slice rebinning geometry
+    }
+  auto c3 = dynamic_pointer_cast<ProjDataInfoCylindrical>(p3);
+  auto c4 = dynamic_pointer_cast<ProjDataInfoCylindrical>(p4);
+  if (!c3 || !c4)
+    return;
+  shared_ptr<ExamInfo> ei(new ExamInfo);
+  for (int pass = 0; pass < 2; ++pass) // pass 0: random sinogram values (correspondence), pass 1: ramp in m (oracle)
+    {
+      ProjDataInMemory d3(ei, p3), d4(ei, p4);
+      std::ostringstream o;
+      o << "invssrb " << p4->get_min_tof_pos_num() << " " << p4->get_max_tof_pos_num() << " | " << c3->get_min_ring_difference(0) << ","
+        << c3->get_max_ring_difference(0) << "," << c3->get_num_axial_poss(0) << " | " << c4->get_min_segment_num();
+      for (int sg = c4->get_min_segment_num(); sg <= c4->get_max_segment_num(); ++sg)
+        o << " " << c4->get_min_ring_difference(sg) << "," << c4->get_max_ring_difference(sg) << "," << c4->get_num_axial_poss(sg);
+      o << " |";
+      std::map<std::pair<int, int>, float> cval;
+      for (int k = p3->get_min_tof_pos_num(); k <= p3->get_max_tof_pos_num(); ++k)
+        for (int a = p3->get_min_axial_pos_num(0); a <= p3->get_max_axial_pos_num(0); ++a)
+          {
+            const float c = pass == 0 ? rand_value(rng, true) : c3->get_m(Bin(0, 0, a, 0)) + 100.F + k;
+            cval[std::make_pair(a, k)] = c;
+            Sinogram<float> sino = d3.get_empty_sinogram(a, 0, false, k);
+            sino.fill(c);
+            d3.set_sinogram(sino);
+            o << " " << vh::hex(c);
+          }
+      if (pass == 0)
+        ++n_ops, std::fprintf(ops, "%s\n", o.str().c_str());
+      bool ok = true;
+      try
+        {
+          ok = inverse_SSRB(d4, d3) == Succeeded::yes;
+        }
+      catch (...)
+        {
+          ok = false;
+        }
+      if (!ok)
+        {
+          if (pass == 0)
+            ++n_out, std::fprintf(out, "err\n");
+          continue;
+        }
+      std::ostringstream a;
+      bool first = true;
+      const float m_lo = c3->get_m(Bin(0, 0, p3->get_min_axial_pos_num(0), 0)), m_hi = c3->get_m(Bin(0, 0, p3->get_max_axial_pos_num(0), 0));
+      for (int sg = p4->get_min_segment_num(); sg <= p4->get_max_segment_num(); ++sg)
+        for (int ax = p4->get_min_axial_pos_num(sg); ax <= p4->get_max_axial_pos_num(sg); ++ax)
+          for (int k = p4->get_min_tof_pos_num(); k <= p4->get_max_tof_pos_num(); ++k)
+            {
+              const Sinogram<float> sino = d4.get_sinogram(ax, sg, false, k);
+              const float v = sino[sino.get_min_view_num()][sino.get_min_tangential_pos_num()];
+              a << (first ? "" : " ") << F(v);
+              first = false;
+              // ORACLE: every bin of the sinogram got the same combination; a ramp in m is reproduced at the output's m;
+              // an input sinogram at the same m is copied
+              ++oracle_checks;
+              if (sino.find_max() != sino.find_min())
+                oracle_fail("inverse_SSRB: output sinogram is not the same combination of input sinograms in every bin");
+              const float out_m = c4->get_m(Bin(sg, 0, ax, 0));
+              if (pass == 1 && out_m >= m_lo - 1e-3 && out_m <= m_hi + 1e-3)
+                {
+                  ++oracle_checks;
+                  if (std::fabs(v - (out_m + 100.F + k)) > 2e-3)
+                    oracle_fail("inverse_SSRB does not place data at the output's axial position: ramp value " + std::to_string(v) + " at m="
+                                + std::to_string(out_m) + " R=" + std::to_string(R) + " 3D{" + geom_str(*c3) + "} 4D{" + geom_str(*c4) + "}");
+                }
+              if (pass == 0)
+                for (int a3 = p3->get_min_axial_pos_num(0); a3 <= p3->get_max_axial_pos_num(0); ++a3)
+                  if (std::fabs(c3->get_m(Bin(0, 0, a3, 0)) - out_m) < 1e-4)
+                    {
+                      ++oracle_checks;
+                      if (v != cval[std::make_pair(a3, k)])
+                        oracle_fail("inverse_SSRB does not copy the direct sinogram at the same axial position");
+                    }
+            }
+      if (pass == 0)
+        ++n_out, std::fprintf(out, "%s\n", a.str().c_str());
+    }
+}
+
+static void
+run_extend(vh::Rng& rng)
+{
+  // (4 views put |phi_range - 2 pi| exactly on the 5-samplings threshold of the source: decided by float rounding, not generated)
+  const int Ns[] = { 10, 12, 14, 20 };
+  const int N = Ns[rng.range(0, 3)];
+  const int R = rng.range(2, 4);
+  const int views = N == 20 && rng.coin() ? 5 : N / 2;
+  const int ntang = rng.range(3, N / 2 - 1);
+  shared_ptr<Scanner> scanner = vh::make_scanner(N, R, -1);
+  shared_ptr<ProjDataInfo> p = vh::make_pdi(scanner, 1, R - 1, views, ntang, false, 0);
+  const int segnum = rng.range(0, 2) == 0 ? 1 : 0;
+  SegmentBySinogram<float> seg = p->get_empty_segment_by_sinogram(segnum);
+  for (auto it = seg.begin_all(); it != seg.end_all(); ++it)
+    *it = rand_value(rng, true);
+  const int ve = rng.range(0, views / 2), ae = rng.range(0, 2), te = rng.range(0, 2);
+  std::ostringstream o;
+  o << "ext " << segnum << " " << views << " | " << seg.get_min_axial_pos_num() << " " << seg.get_min_view_num() << " " << seg.get_min_tangential_pos_num()
+    << " " << seg.get_num_axial_poss() << " " << seg.get_num_views() << " " << seg.get_num_tangential_poss() << " | " << ve << " " << ae << " " << te << " |";
+  for (auto it = seg.begin_all(); it != seg.end_all(); ++it)
+    o << " " << vh::hex(*it);
+  ++n_ops, std::fprintf(ops, "%s\n", o.str().c_str());
+  try
+    {
+      const Array<3, float> e = extend_segment(seg, ve, ae, te);
+      std::ostringstream a;
+      a << e.get_min_index() << " " << e[e.get_min_index()].get_min_index() << " " << e[e.get_min_index()][e[e.get_min_index()].get_min_index()].get_min_index()
+        << " " << e.get_length() << " " << e[e.get_min_index()].get_length() << " " << e[e.get_min_index()][e[e.get_min_index()].get_min_index()].get_length()
+        << " |";
+      for (auto it = e.begin_all(); it != e.end_all(); ++it)
+        a << " " << F(*it);
+      ++n_out, std::fprintf(out, "%s\n", a.str().c_str());
+      // ORACLE: the original data are untouched; nothing but existing values appears
+      std::set<float> vals(seg.begin_all(), seg.end_all());
+      bool ok = true;
+      for (int ax = seg.get_min_axial_pos_num(); ax <= seg.get_max_axial_pos_num(); ++ax)
+        for (int v = seg.get_min_view_num(); v <= seg.get_max_view_num(); ++v)
+          for (int tp = seg.get_min_tangential_pos_num(); tp <= seg.get_max_tangential_pos_num(); ++tp)
+            if (e[ax][v][tp] != seg[ax][v][tp])
+              ok = false;
+      for (auto it = e.begin_all(); it != e.end_all(); ++it)
+        if (!vals.count(*it))
+          ok = false;
+      ++oracle_checks;
+      if (!ok)
+        oracle_fail("extend_segment changes the data inside the original range or invents values: " + o.str().substr(0, 60));
+    }
+  catch (...)
+    {
+      ++n_out, std::fprintf(out, "err\n");
     }
 }
 
@@ -1130,29 +1296,45 @@ main(int argc, char** argv)
   ops = std::fopen(argv[3], "w");
   out = std::fopen(argv[4], "w");
   orc = std::fopen((std::string(argv[4]) + ".oracle").c_str(), "w");
-  try
+  // every case is guarded: an exception escaping from the library is a verdict, and the answer stream stays aligned
+  auto guarded = [&](const char* what, const std::function<void()>& f) {
+    try
+      {
+        f();
+      }
+    catch (std::exception& e)
+      {
+        oracle_fail(std::string("unexpected exception in ") + what + ": " + e.what());
+      }
+    catch (...)
+      {
+        oracle_fail(std::string("unexpected exception in ") + what);
+      }
+    while (n_out < n_ops)
+      ++n_out, std::fprintf(out, "exception\n");
+  };
+  // fixed regression geometries: odd/even parity of a clipped outermost segment, span 1 and 3, TOF
+  guarded("SSRB", [&] { run_ssrb_case({ 16, 5, 3, 2, 8, 7, -1, 0 }, rng, thorough, 3); });
+  guarded("SSRB", [&] { run_ssrb_case({ 16, 4, 3, 2, 8, 7, -1, 0 }, rng, thorough, 3); }); // class of the C01 known finding
+  guarded("SSRB", [&] { run_ssrb_case({ 12, 6, 1, 5, 6, 5, 9, 1 }, rng, thorough, 3); });
+  guarded("SSRB", [&] { run_ssrb_case({ 12, 7, 1, 6, 3, 5, 5, 1 }, rng, thorough, 5); });
+  const int nssrb = thorough ? 400 : 70;
+  for (int k = 0; k < nssrb; ++k)
+    guarded("SSRB", [&] { run_ssrb_case(gen_in_cfg(rng, thorough), rng, thorough); });
+  const int n1d = thorough ? 6000 : 600;
+  for (int k = 0; k < n1d; ++k)
     {
-      // fixed regression geometries: odd/even parity of a clipped outermost segment, span 1 and 3, TOF
-      run_ssrb_case({ 16, 5, 3, 2, 8, 7, -1, 0 }, rng, thorough, 3);
-      run_ssrb_case({ 16, 4, 3, 2, 8, 7, -1, 0 }, rng, thorough, 3); // class of the C01 known finding
-      run_ssrb_case({ 12, 6, 1, 5, 6, 5, 9, 1 }, rng, thorough, 3);
-      run_ssrb_case({ 12, 7, 1, 6, 3, 5, 5, 1 }, rng, thorough, 5);
-      const int nssrb = thorough ? 400 : 70;
-      for (int k = 0; k < nssrb; ++k)
-        run_ssrb_case(gen_in_cfg(rng, thorough), rng, thorough);
-      const int n1d = thorough ? 6000 : 600;
-      for (int k = 0; k < n1d; ++k)
-        {
-          run_overlap_1d(rng);
-          run_overlap_iter(rng);
-        }
-      const int nzoom = thorough ? 1500 : 70;
-      for (int k = 0; k < nzoom; ++k)
-        run_zoom_case(rng);
+      guarded("overlap_interpolate", [&] { run_overlap_1d(rng); });
+      guarded("overlap_interpolate (iterators)", [&] { run_overlap_iter(rng); });
     }
-  catch (std::exception& e)
+  const int nzoom = thorough ? 1500 : 70;
+  for (int k = 0; k < nzoom; ++k)
+    guarded("zoom_image", [&] { run_zoom_case(rng); });
+  const int ninv = thorough ? 400 : 40;
+  for (int k = 0; k < ninv; ++k)
     {
-      oracle_fail(std::string("unexpected exception: ") + e.what());
+      guarded("inverse_SSRB", [&] { run_inverse_ssrb(rng); });
+      guarded("extend_segment", [&] { run_extend(rng); });
     }
   std::fprintf(orc, "ORACLE-DONE checks=%ld fails=%ld\n", oracle_checks, oracle_fails);
   std::fclose(ops);
